@@ -1,4 +1,5 @@
 import PdshVerif.Dsh.Timed
+import PdshVerif.Dsh.TimedK
 import Driver.Util
 
 /-! engine `timed`: trace acceptor for the C07 runs of the `sched` harness (virtual clock, scripted
@@ -11,24 +12,34 @@ import Driver.Util
                                               life = the command exits by itself that many seconds after
                                               the connect (- = never), grace = it is gone that many seconds
                                               after a SIGTERM (- = it ignores SIGTERM); default 0 0  -> ok
+    kopt <0|1>                                -k (kill_on_fail); default 0                        -> ok
+    nz                                        the remote command of the host just given exits non-zero -> ok
     go                                        all hosts given                                    -> ok
     st <tc> <R> <P> <X> <now>                 harness state before a step                        -> ok | reject ..
     ev D .. | ev W<i> <fan op> | ev W<i> wake | ev G scan <hit targets|-> | ev tick              -> ok | reject ..
     ev W<i> destroyEnd <reaped|eintr>         rcmd_destroy returned with the command gone and reaped, resp.
                                               its wait was interrupted (command given up un-reaped)     -> ok | reject ..
     obs <i> <outgot> <errgot> <outclosed> <errclosed> <res|?>   what the harness saw of target i -> ok | reject ..
-    end <ok|deadlock|other>
-    The transition function is `PdshVerif.Dsh.Timed.step`, the one the theorems are about. -/
+    ev W<i> abort                             -k: the worker of a failed target forwards SIGTERM and exits  -> ok | reject ..
+    end <ok|deadlock|exit|other>              exit: with -k the model must have exited as well
+    The transition function is `PdshVerif.Dsh.TimedK.step` = `PdshVerif.Dsh.Timed.step` (over `FanG.step`) plus
+    the -k exit, the functions the theorems of Props/C07.lean are about. -/
 namespace Driver.TimedDrv
 open PdshVerif.Dsh PdshVerif.Dsh.Timed
 
 structure Acc where
   st : Option St := none
   dead : Bool := false
-  v : Fan.Variant := .whileWait
+  v : FanG.Variant := .whileWait
   f : Nat := 1
   cfg : Cfg := { ct := 0, ut := 0, sopt := false, selfCheck := false, stopWdog := false }
   scripts : List Script := []
+  k : Bool := false
+  nz : List Bool := []
+  exited : Bool := false
+
+/-- the -k system around the timed state -/
+def Acc.kst (a : Acc) (s : St) : TimedK.St := { t := s, k := a.k, nz := a.nz, exited := a.exited }
 
 def names (t : String) : List String := if t = "-" then [] else t.splitOn ","
 
@@ -46,7 +57,21 @@ def parseItem (t : String) : Option Item :=
 
 def parseItems (t : String) : Option (List Item) := (names t).mapM parseItem
 
-def parseFanLabel : List String → Option Fan.Label
+/-- `unlock` / `signal` / `broadcast` of a worker: the label is chosen by `pickObserved` (what the call DOES in the
+    state it is made in: an unlock before the wake-up call is `unlockFirst`, a wake-up call after the unlock is
+    `signalAfter`; signal and broadcast are the same transition, the dispatcher being the only waiter) -/
+def altLabel : FanG.Label → Option FanG.Label
+  | .w i .signal => some (.w i .signalAfter)
+  | .w i .unlock => some (.w i .unlockFirst)
+  | _ => none
+
+def pickObserved (f : FanG.St) (l : FanG.Label) : FanG.Label :=
+  if (FanG.step f l).isSome then l
+  else match altLabel l with
+    | some l' => if (FanG.step f l').isSome then l' else l
+    | none => l
+
+def parseFanLabel : List String → Option FanG.Label
   | ["D", "lock"] => some (.d .lock)
   | ["D", "wait"] => some (.d .wait)
   | ["D", "wake", "0"] => some (.d (.wake false))
@@ -66,7 +91,7 @@ def parseFanLabel : List String → Option Fan.Label
         | "destroyBegin" => some (.w i .destroyBegin)
         | "destroyEnd" => some (.w i .destroyEnd)
         | "lock" => some (.w i .lock)
-        | "signal" => some (.w i .signal)
+        | "signal" | "broadcast" => some (.w i .signal)
         | "unlock" => some (.w i .unlock)
         | _ => none
     else none
@@ -122,7 +147,7 @@ def parseEv (s : St) : List String → Except String Label
     else .error "bad thread"
   | ws =>
     match parseFanLabel ws with
-    | some l => .ok (.fan l)
+    | some l => .ok (.fan (pickObserved s.fan l))
     | none => .error ("unknown event " ++ " ".intercalate ws)
 
 def parseOptNat (t : String) : Option (Option Nat) := if t = "-" then some none else t.toNat?.map some
@@ -146,11 +171,22 @@ def stepLine (a : Acc) (line : String) : Acc × String :=
     match f.toNat?, ct.toNat?, ut.toNat? with
     | some f, some ct, some ut =>
       ({ st := none, dead := false, v := if v = "if" then .ifWait else .whileWait, f := f,
-         cfg := { ct := ct, ut := ut, sopt := sopt = "1", selfCheck := sc = "1", stopWdog := sw = "1" }, scripts := [] }, "ok")
+         cfg := { ct := ct, ut := ut, sopt := sopt = "1", selfCheck := sc = "1", stopWdog := sw = "1" }, scripts := [],
+         k := false, nz := [], exited := false }, "ok")
     | _, _, _ => (a, "bad-line")
   | ["host", k, d, o, e] => addHost a k d o e "0" "0"
   | ["host", k, d, o, e, life, grace] => addHost a k d o e life grace
+  | ["kopt", k] => ({ a with k := k = "1" }, "ok")
+  | ["nz"] => ({ a with nz := (a.nz ++ List.replicate (a.scripts.length - 1 - a.nz.length) false) ++ [true] }, "ok")
   | ["go"] => ({ a with st := some (init a.v a.f a.cfg a.scripts) }, "ok")
+  | ["ev", w, "abort"] =>
+    if a.dead then (a, "skip") else
+    match a.st, (if w.startsWith "W" then (w.drop 1).toNat? else none) with
+    | some s, some i =>
+      match TimedK.step (a.kst s) (.abort i) with
+      | some ks => ({ a with st := some ks.t, exited := ks.exited }, "ok")
+      | none => ({ a with dead := true }, s!"reject -k exit by worker {i} not enabled in the model ({showSt s})")
+    | _, _ => (a, "bad-line")
   | "st" :: rest =>
     if a.dead then (a, "skip") else
     match a.st, rest with
@@ -169,7 +205,7 @@ def stepLine (a : Acc) (line : String) : Acc × String :=
       match parseEv s rest with
       | .error why => ({ a with dead := true }, "reject " ++ why)
       | .ok l =>
-        match step s l with
+        match (TimedK.step (a.kst s) (.t l)).map (·.t) with
         | some s' =>
           match want with
           | some (i, b) =>
@@ -199,6 +235,8 @@ def stepLine (a : Acc) (line : String) : Acc × String :=
         if s.fan.dpc = .returned then (a, "ok") else (a, s!"reject run ended but the model is not final ({showSt s})")
       else if status = "deadlock" then
         if enabledNames s = [] then (a, "ok") else (a, s!"reject implementation stuck, model has enabled {enabledNames s}")
+      else if status = "exit" && a.k then
+        if a.exited then (a, "ok") else (a, s!"reject pdsh exited but the model has not ({showSt s})")
       else (a, "ok")
     | none => (a, "bad-line")
   | _ => (a, "bad-line")
